@@ -40,3 +40,53 @@ def Stream.deliverFuel : Nat → Stream → List WireFrame → List Bytes
 def Stream.deliver (r : Stream) (w : List WireFrame) : List Bytes := Stream.deliverFuel (w.length + 1) r w
 
 end Cedar
+
+namespace Cedar
+
+/-- Everything an application can do to an established stream (both directions, secrets, crypto
+    mode), as one operation type: histories are `List Op`. -/
+inductive Op
+  | send (d : Bytes) (fl : Nat)
+  | write (d : Bytes)
+  | endMsg
+  | startMsg
+  | secret (d : Bytes)
+  | crypto (on : Bool)
+  | recv (f : WireFrame)
+  | recvPlain (f : WireFrame)
+  | getSecret (f : WireFrame)
+  deriving Repr
+
+def okOr {α : Type} (s : Stream) (r : Except Err (Stream × α)) (emit : α → List WireFrame) : Stream × List WireFrame :=
+  match r with
+  | .ok (s', a) => (s', emit a)
+  | .error _ => (s, [])
+
+/-- One operation; what it puts on the wire. A failed operation emits nothing (the fields the Go
+    code may have touched on an error path — sendEOM, decIV, finRecvAAD — play no role in what is
+    proved over `run`). -/
+def Stream.step (s : Stream) : Op → Stream × List WireFrame
+  | .send d fl => okOr s (s.sendFrame d fl) (fun f => [f])
+  | .write d => okOr s (s.writeMessage d) id
+  | .endMsg => okOr s s.endMessage id
+  | .startMsg => (s.startMessage, [])
+  | .secret d => okOr s (s.putSecret d) (fun f => [f])
+  | .crypto on => ((s.setCryptoMode on).1, [])
+  | .recv f => okOr s (s.recvFrameWithEnd f) (fun _ => [])
+  | .recvPlain f => okOr s (s.recvFrame f) (fun _ => [])
+  | .getSecret f => okOr s (s.getSecret f) (fun _ => [])
+
+def Stream.run (s : Stream) : List Op → Stream × List WireFrame
+  | [] => (s, [])
+  | op :: rest =>
+    let (s1, fs) := s.step op
+    let (s2, gs) := s1.run rest
+    (s2, fs ++ gs)
+
+/-- (key, nonce) of a protected frame -/
+def nonceOf (f : WireFrame) : Option (Nat × IV) :=
+  match f.body with
+  | .ct _ c => some (c.key, c.nonce)
+  | .raw _ => none
+
+end Cedar
